@@ -171,8 +171,13 @@ def q2_query_bucket_eventcount(
     datastore: Datastore, namespace: TNamespace, bucketname: str
 ) -> int:
     _verify_bucket_exists(datastore, bucketname)
-    starttime = iso8601.parse_date(namespace["STARTTIME"])
-    endtime = iso8601.parse_date(namespace["ENDTIME"])
+    try:
+        starttime = iso8601.parse_date(namespace["STARTTIME"])
+        endtime = iso8601.parse_date(namespace["ENDTIME"])
+    except iso8601.ParseError:
+        raise QueryFunctionException(
+            "Unable to parse starttime/endtime for query_bucket_eventcount"
+        ) from None
     return datastore[bucketname].get_eventcount(starttime=starttime, endtime=endtime)
 
 
